@@ -22,6 +22,8 @@ What is proved:
 * `code_slice_not_wellformed` — negative witness (`decide`): `"é a"`, match `a`, size 4;
 * `utf8_wellformed`     — the full statement for the boundary-snapping slice `sliceSnap`
   (planned repair), arbitrary bytes, matches on char boundaries;
+* `empty_iff_off_boundary` — the finding's signature predicate is exact; `sliceSnap_eq_sliceCode`
+  — the repair changes nothing where the code is right;
 * `snippet_wellformed…`, `field_highlights…` — the two callers in `materialize_hit`.
 
 The regex engine is a parameter; what the proofs need from it is `RegexOk` (spans in order and
@@ -331,6 +333,52 @@ theorem utf8_wellformed (t : Bytes) (hp : Bool) (find : Nat → Option Span)
     have hne := hr.re_finds off m hm
     rw [hs] at hsp hne ⊢
     exact wf_of_slice t size _ _ _ (by omega) (by omega) (by omega) hsp hne
+
+
+/-! ## the finding's signature is exact, and the repair is conservative -/
+
+/-- Under the property's premise the unchanged code returns an empty fragment **iff** a window
+end is off a char boundary: the known finding's signature predicate describes exactly the
+failing inputs of the slicing step. -/
+theorem empty_iff_off_boundary (t : Bytes) (m1 m2 size : Nat) (h12 : m1 < m2)
+    (h2l : m2 ≤ t.length) (hfit : 2 * (m2 - m1) ≤ size) :
+    sliceCode t m1 size = [] ↔ windowOnBoundary t m1 size = false := by
+  obtain ⟨w1, w2, w3, w4⟩ := window_facts m1 m2 size t.length h12 h2l hfit
+  have hle : (window m1 size t.length).1 ≤ (window m1 size t.length).2 := by omega
+  constructor
+  · intro h0
+    cases hb : windowOnBoundary t m1 size with
+    | false => rfl
+    | true =>
+      rw [sliceCode_eq t m1 size hb hle] at h0
+      have hl : ((t.drop (window m1 size t.length).1).take
+          ((window m1 size t.length).2 - (window m1 size t.length).1)).length = 0 := by
+        rw [h0]; rfl
+      rw [List.length_take, List.length_drop] at hl
+      omega
+  · intro hb
+    simp only [windowOnBoundary, Bool.and_eq_false_iff] at hb
+    rcases hb with hb | hb <;> simp [sliceCode, getSlice, hb]
+
+theorem snapUp_of_boundary (t : Bytes) (f i : Nat) (h : isBoundary t i = true) :
+    snapUp t f i = i := by
+  cases f with
+  | zero => rfl
+  | succ f => simp [snapUp, h]
+
+theorem snapDown_of_boundary (t : Bytes) (i : Nat) (h : isBoundary t i = true) :
+    snapDown t i = i := by
+  cases i with
+  | zero => rfl
+  | succ i => simp [snapDown, h]
+
+/-- where the unchanged code is right (both window ends on boundaries) the boundary-snapping
+slice returns the same fragment -/
+theorem sliceSnap_eq_sliceCode (t : Bytes) (m1 size : Nat)
+    (hb : windowOnBoundary t m1 size = true) : sliceSnap t m1 size = sliceCode t m1 size := by
+  have hb' := hb
+  simp only [windowOnBoundary, Bool.and_eq_true] at hb'
+  simp only [sliceSnap, sliceCode, snapUp_of_boundary t _ _ hb'.1, snapDown_of_boundary t _ hb'.2]
 
 /-! ## the callers in `materialize_hit` -/
 
